@@ -149,7 +149,12 @@ func c14AllocBudget(n int) uint64 {
 // ---- type map configurations -------------------------------------------------------------------
 
 func c14TypeMap(ch *Choices) (map[string]reflect.Type, string) {
-	switch ch.Pick([]int{50, 15, 20, 15}, "tm.kind") {
+	return typeMapVariant(ch, ch.Pick([]int{50, 15, 20, 15}, "tm.kind"))
+}
+
+// typeMapVariant: 0 complete, 1 empty, 2 partial, 3 shuffled (names bound to other / odd types).
+func typeMapVariant(ch *Choices, kind int) (map[string]reflect.Type, string) {
+	switch kind {
 	case 0:
 		cp := make(map[string]reflect.Type, len(ZooTypeMap))
 		for k, v := range ZooTypeMap {
